@@ -68,4 +68,8 @@ func (c *memberEventCoalescer) Flush(outCh chan<- Event) {
 	for _, event := range events {
 		outCh <- *event
 	}
+
+	// Reset the pending events so that a later flush only reports members
+	// that received a new event since this one
+	c.latestEvents = make(map[string]coalesceEvent)
 }
